@@ -7,6 +7,7 @@ pub mod net;
 pub mod obs;
 pub mod oracle;
 pub mod oracle2;
+pub mod oracle3;
 pub mod plan;
 pub mod providers;
 pub mod run;
